@@ -1640,9 +1640,11 @@ class _rrulestr(object):
             forceset = True
             unfold = True
 
+        # A TZID parameter may itself be folded across lines
+        tzid_text = re.sub(r'\r?\n ', '', s) if unfold else s
         TZID_NAMES = dict(map(
             lambda x: (x.upper(), x),
-            re.findall('TZID=(?P<name>[^:]+):', s)
+            re.findall('TZID=(?P<name>[^:]+):', tzid_text)
         ))
         s = s.upper()
         if not s.strip():
